@@ -206,6 +206,23 @@ impl Prop for C06Prop {
             }
             cur = next;
         }
+        // failing-input search support: every word of the falsy table REGENERATED from the source
+        // (lean/DuckModel/Generated/Falsy.lean) is tried against the property's own rule, so a
+        // word added to `is_true` shows up as a concrete violating input, not only as a broken proof
+        if let Ok(gen) = std::fs::read_to_string("lean/DuckModel/Generated/Falsy.lean") {
+            for piece in gen.split("\".toList").collect::<Vec<_>>() {
+                if let Some(i) = piece.rfind('"') {
+                    let w = &piece[i + 1..];
+                    if w.len() < 40 && !w.contains('\n') {
+                        for spelled in [w.to_string(), w.to_uppercase()] {
+                            let lower = spelled.to_ascii_lowercase();
+                            let truthy = !(lower.is_empty() || lower == "0" || lower == "false" || lower == "no");
+                            out.push(Case { req: mk("not", &[spelled.clone()], Some(truthy)), in_domain: true, nontrivial: true, tags: vec!["generated-table-word"] });
+                        }
+                    }
+                }
+            }
+        }
         // truthiness of single values, all consumers
         for v in TRUTHY.iter().chain(FALSY.iter()) {
             for c in CONSUMERS {
